@@ -758,6 +758,9 @@ def boundary(rep, c, sfx):
     if len(unchecked) < 2:
         r.lost("unchecked constructors of Position and Span")
     cg = hirq.CallGraph([c])
+    TOKEN_POS_GETTERS.clear()
+    TOKEN_POS_GETTERS.update(find_token_pos_getters(c))
+    r.note("token-position getters (by role): %s" % sorted(TOKEN_POS_GETTERS))
     allowed_fields = {"pos", "start", "end", "attempt_pos", "input_pos"}
     for b in unchecked:
         for (p, n) in cg.callers_of(b["path"]):
@@ -777,6 +780,30 @@ def boundary(rep, c, sfx):
                                 "position/span/token: it may not be a UTF-8 boundary" % (hirq.expr_text(a), b["path"]))
 
 
+TOKEN_POS_GETTERS = set()
+
+
+def find_token_pos_getters(c):
+    """Functions whose value is the input_pos of a queue token on every path (`match self.queue[i] { Start{input_pos,..}
+    | End{input_pos,..} => input_pos }`), whatever they are called."""
+    out = set()
+    for b in c.bodies:
+        if b.get("output") != "usize" or b.get("body") is None or b.get("exp"):
+            continue
+        leaves = hirq.tail_leaves(b["body"]) + [x["e"] for x in walk(b["body"]) if kind(x) == "Ret" and x.get("e")]
+        if not leaves:
+            continue
+        ids = set()
+        for n in walk(b["body"]):
+            if n.get("k") == "PStruct" and str(n.get("path", "")).startswith(QT):
+                for f in n["fields"]:
+                    if f["name"] == "input_pos":
+                        ids |= set(x["id"] for x in walk(f["pat"]) if x.get("k") == "PBind")
+        if ids and all(kind(peel(v)) == "Path" and peel(v).get("res") == "local" and peel(v)["id"] in ids for v in leaves):
+            out.add(b["path"])
+    return out
+
+
 def offset_source(a, lets, fn, depth=0):
     e = peel(a)
     if depth > 4:
@@ -784,9 +811,8 @@ def offset_source(a, lets, fn, depth=0):
     k = kind(e)
     if k == "Field" and e["name"] in ("pos", "start", "end", "attempt_pos", "max_position"):
         return "field " + e["name"]
-    if k == "MethodCall" and e.get("path") in ("pest::position::Position::pos", "pest::span::Span::start",
-                                                  "pest::span::Span::end", "pest::iterators::pair::Pair::pos",
-                                                  "pest::iterators::pairs::Pairs::pos"):
+    if k == "MethodCall" and (e.get("path") in ("pest::position::Position::pos", "pest::span::Span::start",
+                                                   "pest::span::Span::end") or e.get("path") in TOKEN_POS_GETTERS):
         return "method " + e["path"]
     if k == "Path" and e.get("res") == "local":
         lid = e["id"]
